@@ -1327,3 +1327,96 @@ Proof.
   split; [exact Hem|].
   rewrite (header_explicit m _ req _ _ He Hs Hem (contributions_spec req sps Hok Hnl)). reflexivity.
 Qed.
+
+(* ================================================================ the class on template strings *)
+Lemma cut_at_sound c : forall s a b, cut_at c s = Some (a, b) -> s = a ++ String c b.
+Proof.
+  induction s as [|x s IH]; intros a b H; simpl in H; [discriminate|].
+  destruct (Ascii.eqb x c) eqn:E.
+  - apply Ascii.eqb_eq in E. subst x. now inversion H.
+  - destruct (cut_at c s) as [[a' b']|] eqn:E2; [|discriminate]. inversion H; subst.
+    simpl. f_equal. now apply IH.
+Qed.
+
+Lemma pseg_seg_of_str x : pseg (seg_of_str x) = x.
+Proof.
+  unfold seg_of_str. destruct (String.eqb x "*") eqn:E1; [apply String.eqb_eq in E1; now subst|].
+  destruct (String.eqb x "**") eqn:E2; [apply String.eqb_eq in E2; now subst|]. reflexivity.
+Qed.
+
+Lemma map_pseg_seg l : map pseg (map seg_of_str l) = l.
+Proof. induction l as [|x l IH]; [reflexivity|]. simpl. now rewrite pseg_seg_of_str, IH. Qed.
+
+Lemma srev_acc_app : forall s acc, srev_acc s acc = srev_acc s "" ++ acc.
+Proof.
+  induction s as [|a s IH]; intro acc; [reflexivity|]. simpl. rewrite (IH (String a acc)). rewrite (IH (String a "")).
+  now rewrite sapp_assoc.
+Qed.
+
+Lemma last_is_snoc c s : last_is c s = true -> s = drop_last s ++ s1 c.
+Proof.
+  unfold last_is, srev. induction s as [|a s IH]; [discriminate|].
+  simpl. rewrite srev_acc_app. destruct s as [|b s].
+  - simpl. intro H. apply Ascii.eqb_eq in H. now subst.
+  - intro H. change (String a (String b s) = String a (drop_last (String b s) ++ s1 c)). f_equal. apply IH.
+    destruct (srev_acc (String b s) "") eqn:E; [|exact H].
+    exfalso. simpl in E. rewrite srev_acc_app in E. destruct (srev_acc s ""); discriminate.
+Qed.
+
+Lemma lead_joinc c P : P <> [] -> lead c P = joinc c P ++ s1 c.
+Proof. destruct P as [|x P]; [congruence|]. intros _. simpl. now rewrite sapp_assoc. Qed.
+
+Lemma splitc_nonempty c s : splitc c s <> [].
+Proof. unfold splitc. destruct (split2 c s). discriminate. Qed.
+
+Lemma aip_parse_print s t : aip_parse s = Some t -> tmpl_print t = s.
+Proof.
+  unfold aip_parse. intro H.
+  destruct (cut_at lbrace s) as [[head rest]|] eqn:E1; [|discriminate].
+  destruct (cut_at rbrace rest) as [[body tail]|] eqn:E2; [|discriminate].
+  apply cut_at_sound in E1, E2. subst s rest.
+  set (pre := if is_empty head then Some []
+              else if last_is slash head then Some (map seg_of_str (splitc slash (drop_last head))) else None) in H.
+  set (post := match tail with
+               | EmptyString => Some []
+               | String a tl => if Ascii.eqb a slash then Some (map seg_of_str (splitc slash tl)) else None
+               end) in H.
+  destruct pre as [pre'|] eqn:Epre; [|discriminate]. destruct post as [post'|] eqn:Epost; [|discriminate].
+  assert (Hhead : lead slash (map pseg pre') = head).
+  { unfold pre in Epre. destruct head as [|h0 head'].
+    - inversion Epre; subst. reflexivity.
+    - simpl is_empty in Epre. cbv iota in Epre. destruct (last_is slash (String h0 head')) eqn:El; [|discriminate].
+      inversion Epre; subst. rewrite map_pseg_seg. rewrite lead_joinc by apply splitc_nonempty.
+      rewrite joinc_splitc. symmetry. now apply last_is_snoc. }
+  assert (Htail : tails slash (map pseg post') = tail).
+  { unfold post in Epost. destruct tail as [|a tl].
+    - inversion Epost; subst. reflexivity.
+    - destruct (Ascii.eqb a slash) eqn:Ea; [|discriminate]. apply Ascii.eqb_eq in Ea. subst a.
+      inversion Epost; subst. rewrite map_pseg_seg.
+      pose proof (joinc_splitc slash tl) as J. destruct (splitc slash tl) as [|x l] eqn:Es; [now apply splitc_nonempty in Es|].
+      simpl in J. simpl. now rewrite J. }
+  destruct (cut_at eqc body) as [[key subs]|] eqn:E3.
+  - apply cut_at_sound in E3. inversion H; subst t. unfold tmpl_print. cbn [t_pre t_post]. rewrite joinc_mid.
+    rewrite Hhead, Htail. unfold named_str. cbn [t_short t_key t_sub]. rewrite map_pseg_seg, joinc_splitc.
+    rewrite E3. simpl. f_equal. rewrite !sapp_assoc. simpl. f_equal. f_equal. now rewrite sapp_assoc.
+  - inversion H; subst t. unfold tmpl_print. cbn [t_pre t_post]. rewrite joinc_mid.
+    rewrite Hhead, Htail. unfold named_str. cbn [t_short t_key]. simpl. f_equal. f_equal. now rewrite sapp_assoc.
+Qed.
+
+Lemma routing_contribution_correct_str : forall (s field v : string) (t : tmpl),
+  aip_parse s = Some t -> aip_class t = true -> nl_free v = true ->
+  contribution {| p_field := field; p_template := s |} v = Ok (aip_contribution t v).
+Proof.
+  intros s field v t Hp Hc Hn. apply aip_parse_print in Hp. subst s.
+  now destruct (routing_contribution_correct_l t field v Hc Hn).
+Qed.
+
+Lemma routing_contribution_correct_str_l : forall (s field v : string),
+  aip_class_str s = true -> nl_free v = true ->
+  exists t, aip_parse s = Some t /\ tmpl_print t = s /\
+            contribution {| p_field := field; p_template := s |} v = Ok (aip_contribution t v).
+Proof.
+  intros s field v Hc Hn. unfold aip_class_str in Hc. destruct (aip_parse s) as [t|] eqn:Hp; [|discriminate].
+  exists t. split; [reflexivity|]. split; [now apply aip_parse_print|].
+  now apply routing_contribution_correct_str.
+Qed.
